@@ -9,7 +9,13 @@ import sys
 rows = []
 for d in sorted(x for x in glob.glob("/verif/seeded/*") if os.path.isdir(x)):
     meta = json.load(open(os.path.join(d, "meta.json")))
-    rows.append((os.path.basename(d), meta["breaks_property"], meta.get("sweep", {}), bool(meta.get("superseded"))))
+    rep = meta.get("sweep")
+    if not rep:
+        # not swept yet: the record tools/seed_eval.py wrote when the change was confirmed and stored
+        run = meta.get("what_was_run", {})
+        rep = {"confirmed": meta.get("confirmed"), "detected_by": meta.get("detected_by", []), "head": meta.get("base_commit", "?"),
+               "checks": run.get("checks with VERIF_REPO=<scratch worktree with the change>", {})}
+    rows.append((os.path.basename(d), meta["breaks_property"], rep, bool(meta.get("superseded"))))
 heads = sorted({r[2].get("head", "?") for r in rows})
 with open("/verif/seeded/INDEX.md", "w") as f:
     f.write("# Seeded changes (independent sub-agents), re-evaluated by tools/seed_sweep.py\n\n")
